@@ -1,5 +1,5 @@
 (* C17 — post-login redirects never leave the keymaster origin.  Property theorems only. *)
-From KM Require Import Base.Bytes Model.Dest Model.DestReq Proofs.Dest Proofs.DestReq.
+From KM Require Import Base.Bytes Model.Dest Model.DestReq Model.DestExt Proofs.Dest Proofs.DestReq Proofs.DestExt.
 
 (* For every byte string submitted as login_destination, and whether or not url.Parse accepts
    it, the Location that http.Redirect emits is same-origin under WHATWG resolution. *)
@@ -96,3 +96,52 @@ Example c17_hostile_cookie_example :
   req_location false {| lr_form := None; lr_cookies := [(param_name, [47;47;101;46;120;47])]; lr_headers := [];
                         lr_body := []; lr_path_suffix := [] |} = profile.
 Proof. vm_compute. reflexivity. Qed.
+
+(* ---- an external base URL as a configuration component (Model/DestExt.v) ----
+   With a configured external URL the statement reads: the Location resolves to the page's own origin OR lies
+   under the configured URL ([allowed]); the tree the model follows has no such setting, so its Location does
+   not depend on the component ([forall ext]) ... *)
+Theorem c17_external : forall (ext : option bs) (parse_fails : bool) (form_value : bs),
+  allowed ext (location_ext ext parse_fails form_value) = true /\
+  allowed ext (federated_location_ext ext parse_fails form_value) = true.
+Proof. exact location_ext_allowed. Qed.
+Print Assumptions c17_external.
+Theorem c17_external_ignored : forall (ext ext' : option bs) (parse_fails : bool) (form_value : bs),
+  location_ext ext parse_fails form_value = location_ext ext' parse_fails form_value /\
+  federated_location_ext ext parse_fails form_value = federated_location_ext ext' parse_fails form_value.
+Proof. exact location_ext_independent. Qed.
+Print Assumptions c17_external_ignored.
+(* ... without an external URL "allowed" IS "same origin" ... *)
+Theorem c17_no_external : forall loc : bs, allowed None loc = same_origin loc.
+Proof. exact allowed_none. Qed.
+Print Assumptions c17_no_external.
+(* ... and a resolution step behind the filter that drops the leading slash and resolves the rest against the
+   external URL (RFC 3986: a reference with a scheme is returned as it is) is refuted: "/https://e.x/" *)
+Theorem c17_strip_resolve_refuted : exists e pf s, allowed (Some e) (location_strip_resolve (Some e) pf s) = false.
+Proof. exact strip_resolve_refuted. Qed.
+Print Assumptions c17_strip_resolve_refuted.
+
+(* Non-vacuity for the leading slash-run and scheme-in-first-segment families (c17_location / c17_federated
+   quantify over ALL byte strings, so both families are covered by the existing statements). *)
+(* "///e.x" -> profile page; same for "/\/e.x" and "////e.x/a" *)
+Example c17_triple_slash_falls_back :
+  location false [47;47;47;101;46;120] = profile /\ federated_location false [47;47;47;101;46;120] = profile /\
+  location false [47;92;47;101;46;120] = profile /\ federated_location false [47;47;47;47;101;46;120;47;97] = profile.
+Proof. vm_compute. repeat split; reflexivity. Qed.
+(* the predicate itself refuses a Location "///e.x" and "/\\e.x" (what a sink without path cleaning would emit) *)
+Example c17_slash_run_not_same_origin :
+  same_origin [47;47;47;101;46;120] = false /\ same_origin [47;92;92;101;46;120] = false.
+Proof. vm_compute. split; reflexivity. Qed.
+(* "/https://e.x/" is accepted and redirected to as "/https:/e.x/" (path.Clean), same origin *)
+Example c17_scheme_segment_stays :
+  location false [47;104;116;116;112;115;58;47;47;101;46;120;47] = [47;104;116;116;112;115;58;47;101;46;120;47] /\
+  same_origin (location false [47;104;116;116;112;115;58;47;47;101;46;120;47]) = true.
+Proof. vm_compute. split; reflexivity. Qed.
+(* under the external URL "https://sso.example.org/km": ".../km/profile/" is, "https://e.x/", ".../kmx" and
+   ".../km/../x" are not *)
+Example c17_under_ext_examples :
+  under_ext ext_example (ext_example ++ profile) = true /\
+  under_ext ext_example [104;116;116;112;115;58;47;47;101;46;120;47] = false /\
+  under_ext ext_example (ext_example ++ [120]) = false /\
+  under_ext ext_example (ext_example ++ [47;46;46;47;120]) = false.
+Proof. vm_compute. repeat split; reflexivity. Qed.
